@@ -32,7 +32,7 @@ for p in props:
             "level_note": c["note"] + " Kernel: Coq 8.16.1 full .vo build, vm_compute, no axioms (Print Assumptions recorded per theorem in the evidence).",
             "technique": c["tech"],
         })
-na = [{"property_id": p["id"], "reason": "check not built yet in this session (planned: DESIGN.md section 6/%s); not claimed until its check exists" % p["id"]}
+na = [{"property_id": p["id"], "reason": "applicable to the technique and built (DESIGN.md section 6/%s), but not claimed at this commit: its model is being brought in line with a repair made to python-pptx and the check may not be claimed until it passes on the unchanged tree (DESIGN.md section 15)" % p["id"]}
       for p in props if p["id"] not in CLAIMED]
 m = {
  "version": 1,
